@@ -149,6 +149,57 @@ func runC20(t *simrt.Tape, o Opts) Outcome {
 			}
 			return n
 		}
+		// skClause: the factory-wide system key cache follows the same rule as the intermediate key
+		// caches. A decrypt that had to read an intermediate key row needs that row's parent system key;
+		// when the process last read that system key's record more than one interval ago (and was not
+		// shown it as revoked - a key known to be revoked is not looked at again), the operation reads
+		// the system key's record again before using it.
+		type skSeen struct {
+			at      time.Duration
+			revoked bool
+		}
+		skFresh := map[string]skSeen{}
+		skClause := func(op *world.OpRec, p *world.Proc, rec *world.Rec) {
+			var parents []int64
+			skReads := 0
+			for _, c := range w.Calls {
+				if c.Op != op {
+					continue
+				}
+				if c.ID == rec.IKID && c.Class == "ms.load" && c.Result == "ok" && c.Parent != 0 {
+					parents = append(parents, c.Parent)
+				}
+				if c.ID == w.SKID() && (c.Class == "ms.load" || c.Class == "ms.latest") {
+					skReads++
+				}
+			}
+			if p.Cfg.CacheSK && fitsSK(p.Cfg) && op.Err == nil && op.Panic == "" {
+				for _, x := range parents {
+					f, ok := skFresh[fmt.Sprintf("%d|%d", p.ID, x)]
+					if !ok || f.revoked || op.T0 <= f.at+pol.Revoke {
+						continue
+					}
+					count(st.Oracle, "reread-after-interval-system-key")
+					clauses["reread-sk"] = true
+					if skReads == 0 {
+						w.Violate("stale-key-not-reread", "stale-key-not-reread/system-key/"+cacheKind(p.Cfg), "decrypt read an intermediate key row and used its parent system key %v after the process last read that system key's record (interval %v) without reading it again", op.T0-f.at, pol.Revoke)
+					}
+				}
+			}
+		}
+		skTouched := func(op *world.OpRec, p *world.Proc) {
+			for _, c := range w.Calls {
+				if c.Op != op || c.ID != w.SKID() || c.Result != "ok" {
+					continue
+				}
+				switch c.Class {
+				case "ms.load", "ms.latest":
+					skFresh[fmt.Sprintf("%d|%d", p.ID, c.RetCreated)] = skSeen{op.T0, c.Revoked}
+				case "ms.store":
+					skFresh[fmt.Sprintf("%d|%d", p.ID, c.Created)] = skSeen{op.T0, false}
+				}
+			}
+		}
 		noRetention := func(op *world.OpRec, p *world.Proc) {
 			if p.Cfg.CacheSK || p.Cfg.CacheIK || p.Cfg.SessionCache {
 				return
@@ -174,6 +225,7 @@ func runC20(t *simrt.Tape, o Opts) Outcome {
 			}
 		}
 		h.hooks.afterEncrypt = func(se *world.Sess, rec *world.Rec, op *world.OpRec) {
+			defer skTouched(op, se.P)
 			if rec == nil {
 				return
 			}
@@ -221,11 +273,13 @@ func runC20(t *simrt.Tape, o Opts) Outcome {
 			}
 		}
 		h.hooks.afterDecrypt = func(se *world.Sess, rec *world.Rec, got []byte, op *world.OpRec) {
+			defer skTouched(op, se.P)
 			if op.Err != nil || op.Panic != "" {
 				return
 			}
 			defer used(se, op, rec.IKID, rec.IKCreated, false)
 			p := se.P
+			skClause(op, p, rec)
 			kmsClause(op, p)
 			noRetention(op, p)
 			if !p.Cfg.CacheIK || p.Cfg.SessionCache || !fitsIK(p.Cfg) {
